@@ -358,7 +358,8 @@ def run(ctx):
             c["other_home"] = os.path.join(slots.slot_dir((slot + 1) % n_slots), "home") if ctx.tier == "thorough" else None
             s = Script(ctx, slot, c, ctx.tier, lock)
             try:
-                status = s.run()
+                with engine.SlotLock(slot):
+                    status = s.run()
             except Exception as e:
                 status = "harness_error: %r" % (e,)
             with lock:
